@@ -810,3 +810,43 @@ def _exits_consume( g, cons, node ):
         if cons.node( t )[1] > 0:
             return True
     return False
+
+
+@rule( 'G-LIMITS', props=( 'C10', ), floor=3 )
+def g_limits( ctx ):
+    """the limits that tie a nested parser to a length parsed earlier are carried by the parsers that CONSUME: (a) every item parser created in
+    CPF's loop over ITEM_PARSERS gets the same constant limit naming the item's length - no sibling is exempted; (b) every command parser
+    created in CIP's loop over COMMAND_PARSERS gets a constant limit naming the frame's length; (c) no limit is hung on a state that consumes
+    nothing ( octets_noop, decide, move_if, state ): a state's limit bounds its OWN sub-machine and transition, not the states it leads to."""
+    res = Result( 'G-LIMITS' )
+    src = ctx.src( 'server/enip/parser.py' )
+    def dispatch_loops( fn, table ):
+        return [ f for f in ast.walk( fn ) if isinstance( f, ast.For ) and table in txt( f.iter ) ]
+    for qn, table, want_suffix in (( 'CPF.__init__', 'ITEM_PARSERS', 'length' ), ( 'CIP.__init__', 'COMMAND_PARSERS', 'length' )):
+        fn = src.get( qn )
+        loops = dispatch_loops( fn, table )
+        if len( loops ) != 1:
+            raise AnalysisError( '%s: the loop over %s not found' % ( qn, table ))
+        tnames = [ t.id for t in ast.walk( loops[0].target ) if isinstance( t, ast.Name ) ]
+        made = [ c for c in ast.walk( loops[0] ) if isinstance( c, ast.Call ) and isinstance( c.func, ast.Name ) and c.func.id in tnames ]
+        if not made:
+            raise AnalysisError( '%s: no parser is created from %s in the loop' % ( qn, table ))
+        for c in made:
+            kw = { k.arg: k.value for k in c.keywords }
+            lim = kw.get( 'limit' )
+            v = try_fold( lim, default=None ) if lim is not None else None
+            if isinstance( v, str ) and v.lstrip( '.' ) == want_suffix and v.startswith( '..' ):
+                res.ok( src, c, '%s: every parser created from %s is limited by %r' % ( qn, table, v ))
+            else:
+                res.bad( src, c, '%s creates the parsers of %s with limit=%s' % ( qn, table, norm_text( lim ) if lim is not None else 'None (absent)' ),
+                         'a parser that is not tied to the length parsed ahead of it completes successfully past that length whenever its own structure asks for more: it eats the following item / the bytes behind the frame' )
+    n = 0
+    for rel in ( 'server/enip/parser.py', 'server/enip/device.py', 'server/enip/logix.py' ):
+        s2 = ctx.src( rel )
+        for c in ast.walk( s2.tree ):
+            if isinstance( c, ast.Call ) and isinstance( c.func, ast.Name ) and c.func.id in ( 'octets_noop', 'decide', 'move_if', 'state', 'octets_drop_noop' ):
+                n += 1
+                if any( k.arg == 'limit' and not ( isinstance( k.value, ast.Constant ) and k.value.value is None ) for k in c.keywords ):
+                    res.bad( s2, c, '%s( ..., limit=... ): a limit on a state that consumes nothing' % c.func.id, 'the limit bounds nothing: the states this one leads to run unlimited' )
+    res.ok( src, src.get( 'CIP.__init__' ), 'no limit is hung on a non-consuming state (%d octets_noop / decide / move_if / state constructions)' % n )
+    return res
